@@ -24,6 +24,7 @@ EXPLANATION = (
     "merge() deletes atoms (RemoveAtom / DeleteSubstructs / ReplaceSubstructs); (M4) hydrogen fixing is applied to both boundary atoms "
     "under `bond_type is not None` before merge_two_mols and reduces the explicit H count by the bond order."
     " (M5) no loop iterates the live compound list while its body reaches a list mutator; (M6) in MergeRule.apply the compound that is updated, that inherits the other compound's rules and that is returned is <b>.compound of the boundary b removed by update(), as b is bound at that point (a look-up taken before the boundary swap is stale); (M7) <compound>.mol is assigned only by methods of Compound and of the rule/action classes, never by the orchestration in merge.py."
+    ' (M9) the classification loop of merge() hands every compound to a collector on every path; (M10) explicit hydrogen counts are changed only by the hydrogen-fixing helper of MergeRule.apply.'
 )
 ASSUMPTIONS = ["RDKit CombineMols/AddBond conserve atoms (library)"]
 
